@@ -151,6 +151,8 @@ impl Database {
             .await
             .flatten();
 
+        #[cfg(feature = "verif-hooks")]
+        crate::verif::pause("read_transaction:after-index-lookup");
         let (reply_tx, reply_rx) = oneshot::channel();
         self.reader_pool.spawn(move |with_readers| {
                 with_readers(move |readers| match segment_id_offset {
@@ -245,6 +247,8 @@ impl Database {
         if let Some(latest) = latest {
             return Ok(Some(latest));
         }
+        #[cfg(feature = "verif-hooks")]
+        crate::verif::pause("get_partition_sequence:after-live-miss");
 
         let (reply_tx, reply_rx) = oneshot::channel();
         self.reader_pool.spawn({
@@ -322,6 +326,8 @@ impl Database {
         if let Some(latest) = latest {
             return Ok(Some(latest));
         }
+        #[cfg(feature = "verif-hooks")]
+        crate::verif::pause("get_stream_version:after-live-miss");
 
         let (reply_tx, reply_rx) = oneshot::channel();
         self.reader_pool.spawn({
